@@ -262,6 +262,19 @@ func (s *MemoryStore) EnqueueBatch(items []Envelope) (int, error) {
 		}
 	}
 
+	// Handle depth overflow with drop_oldest before the duplicate check, as the
+	// transactional backends do: an id that collides only with an evicted item
+	// is not a duplicate (evictions are undone if the batch is refused).
+	if s.maxDepth > 0 {
+		for activeCount+needed > s.maxDepth || (s.deliveredRetentionMaxAge > 0 && activeDeliveredCount+needed > s.maxDepth) {
+			if !s.dropOldestQueuedLocked() {
+				return 0, ErrQueueFull
+			}
+			activeCount = s.activeCountLocked()
+			activeDeliveredCount = s.activeDeliveredCountLocked()
+		}
+	}
+
 	prepared := make([]*Envelope, 0, needed)
 	seenIDs := make(map[string]struct{}, needed)
 	for i := range items {
@@ -299,17 +312,6 @@ func (s *MemoryStore) EnqueueBatch(items []Envelope) (int, error) {
 		}
 		cpy := env
 		prepared = append(prepared, &cpy)
-	}
-
-	// Handle depth overflow with drop_oldest.
-	if s.maxDepth > 0 {
-		for activeCount+len(prepared) > s.maxDepth || (s.deliveredRetentionMaxAge > 0 && activeDeliveredCount+len(prepared) > s.maxDepth) {
-			if !s.dropOldestQueuedLocked() {
-				return 0, ErrQueueFull
-			}
-			activeCount = s.activeCountLocked()
-			activeDeliveredCount = s.activeDeliveredCountLocked()
-		}
 	}
 
 	if pressure := s.memoryPressureStatusLocked(); pressure.Active {
